@@ -535,11 +535,10 @@ func substringIndFunc(arg1, arg2 query, after bool) func(query, iterator) interf
 		case string:
 			word = v
 		case query:
-			node := v.Select(t)
-			if node == nil {
-				return ""
+			// an empty node-set converts to the empty string
+			if node := v.Select(t); node != nil {
+				word = node.Value()
 			}
-			word = node.Value()
 		}
 		if word == "" {
 			// the empty string is found at the very start: nothing before it, everything after it
